@@ -11,7 +11,7 @@ TEXT = {
     "C01": (E1[0], "Every sequence of the stated finite families (all sequences up to a length over up to 5 symbols under 6 value maps, "
             "all boundary-straddling shapes) is built with the real QWaveletTree in every alias/element type and every query of the "
             "complete argument alphabet (incl. arguments that wrap around in a scaled unit) is compared with a Vec reference, on the value as built "
-            "and on its deserialized copy: a coverage statement for the bounded space, which contains the "
+            "and on copies of it (deserialized; clone_from into values that held something else): a coverage statement for the bounded space, which contains the "
             "smallest member of every defect family the unit tests miss.", "§4 C01",
             "bounded-exhaustive enumeration of inputs x configurations x query arguments on the real code vs. reference model"),
     "C02": (E1[0], "All sequences / frequency profiles of the stated bounded families AND every tie order the two hash maps can produce "
@@ -23,19 +23,19 @@ TEXT = {
             "bounded-exhaustive enumeration of inputs + exhaustive exploration of hash-map tie orders on the real code"),
     "C05": (E1[0], "Every quaternary sequence of the bounded families (all sequences up to length L, all boundary-straddling shapes) is "
             "indexed by the real RSQVector256/512 through all three construction paths and every query of the full argument alphabet "
-            "is compared with a Vec<u8> reference.", "§4 C05",
+            "is compared with a Vec<u8> reference, also on copies (deserialized, clone_from) and for every block-level composition up to a bound.", "§4 C05",
             "bounded-exhaustive enumeration of inputs x configurations x query arguments on the real code vs. reference model"),
     "C06": (E1[0], "Every bit vector of the bounded families is indexed by the real RSNarrow and RSWide and every rank/select/get/total "
-            "is compared with a Vec<bool> reference - on values from every construction route and on their deserialized copies; a dedicated "
+            "is compared with a Vec<bool> reference - on values from every construction route and on copies of them (deserialized, clone_from into other values), plus all word- and line-level compositions up to a bound; a dedicated "
             "family places the m-th one / zero (where a select sample is taken) at every small distance from the end.", "§4 C06",
             "bounded-exhaustive enumeration of inputs x query arguments on the real code vs. reference model"),
     "C07": (E1[0], "Every dense/threshold/sparse group sequence up to g groups (and partial last groups), plus all short bit vectors, is "
             "built into the real DArray<false/true> by every constructor (groups evenly spread, packed at the start, packed at the end with a hole) "
-            "and all select/iterator answers are compared with a Vec<bool> reference, also on the deserialized copy.", "§4 C07",
+            "and all select/iterator answers are compared with a Vec<bool> reference, also on copies (deserialized, clone_from).", "§4 C07",
             "bounded-exhaustive enumeration of group-shape histories x configurations on the real code vs. reference model"),
     "C08": ("model_checking", "Explicit-state model checking of the real BitVectorMut: every history up to the stated depth from 30 start "
             "states is executed on the implementation next to a Vec<bool>, every reachable state (hidden counters and padding included "
-            "in the state key) is observed completely, counterexamples are replayed before being reported.", "§4 C08",
+            "in the state key) is observed completely - copy operations (round trip, conversion, clone_from) are actions too - and counterexamples are replayed before being reported.", "§4 C08",
             "explicit-state BFS (stateright) over operation histories of the real code, lock-step reference model"),
     "C12": ("model_checking", "All call histories over {next, next_back, len} up to length n+3 on every tree iterator, all forward "
             "histories incl. calls after exhaustion on the vector iterators, and every overridable iterator method (nth, fold, try_fold, count, "
@@ -56,7 +56,7 @@ TEXT = {
     "C11": (E1[0], "Every value of the bounded zoo makes the bincode round trip; equality, byte identity and the digest of the complete "
             "query sweep are compared - for the value before it has answered any query and again after it has answered all of them.", "§4 C11",
             "bounded-exhaustive round-trip exploration on the real code (differential oracle)"),
-    "C19": (E1[0], "All construction paths, clones, all ordered pairs of distinct short inputs and all element widths are compared "
+    "C19": (E1[0], "All construction paths, clones and clone_from copies, all ordered pairs of distinct short inputs and all element widths are compared "
             "differentially over the bounded zoo.", "§4 C19",
             "bounded-exhaustive differential exploration of construction paths / copies / element widths"),
     "C04": ("fault_enumeration", "Every safe public method is called in every state of a zoo that contains the states constructors never build "
